@@ -1010,7 +1010,8 @@ def check_tree(case, tree, w=W_FULL, full=None, counters=None):
                 continue
             bad('broken_link', '{}>{}'.format(pcat, tcat or ('page' if is_page else what)),
                 '{}:{}: <{} {}="{}"> names {} which was not written'.format(p, line, tag, attr, url, target), page=pcat, target=tcat, ref=what,
-                ignored_entry=(target, frag) in case.ignored_targets or (target, '') in case.ignored_targets)
+                ignored_entry=(target, frag) in case.ignored_targets or (target, '') in case.ignored_targets,
+                where='operand' if cell == 'instruction' else 'text')
     return out
 
 
